@@ -151,6 +151,8 @@ def run(ctx):
             # make histories relevant to the probe kind half of the time
             if rng.random() < 0.6:
                 hk[rng.randrange(len(hk))] = {"uses-undefined": rng.choice(["macros", "symbols", "table"]), "table": "table", "map": "map"}.get(pk, pk if pk in kinds else "generated")
+            if pk == "uses-undefined":
+                hk = hk[:2] + ["macros", "symbols", "table"]   # the names the probe uses are all defined by the history
             history = [vocab_program(rng, k, drv) for k in hk]
             probe = vocab_program(rng, pk, drv)
             d1 = os.path.join(tmp, f"h{i}")
